@@ -397,10 +397,15 @@ def _run_case(case):
         if case["sub"] == "in":
             tree = G.materialize(case["tree"])
             tag = tree[0]
+            wire_tree = tree
+            if case.get("unnamed_first_child") and isinstance(tree[2], list):
+                # the stanza carries a child the library has no name for in front of the one that says what it is: still this kind
+                wire_tree = (tree[0], tree[1], [(case["unnamed_first_child"], {}, None)] + list(tree[2]))
+                out.label("unnamed_child_in_front")
             rig = ProtoRig(flags, axolotl)
             try:
                 try:
-                    rig.inject(T.to_node(tree))
+                    rig.inject(T.to_node(wire_tree))
                 except Exception as e:
                     out.fail("up", "up:%s:raises:%s:%s" % (rec.name, type(e).__name__, "module_on" if on else "module_off"),
                              {"error": repr(e)[:300], "config": cfg}, case=single)
@@ -486,6 +491,11 @@ def plan(tier):
     for r in out_records():
         strategies.append(("out:" + r.name,
                            S.args_strategy(r.args, r.kwargs).map(lambda ak, _n=r.name: {"sub": "out", "name": _n, "args": ak[0], "kwargs": ak[1], "debug_logging": True}), n))
+    for r in in_records():
+        if isinstance(r.shape.tag, str) and r.shape.tag in ("ib", "call"):
+            strategies.append(("in_with_unnamed_child_in_front:" + r.name,
+                               st.tuples(S.shape_strategy(r.shape), st.sampled_from(["x", "edge_routing", "meta"])).map(
+                                   lambda t, _n=r.name: {"sub": "in", "name": _n, "tree": S.tree_to_json(t[0]), "unnamed_first_child": t[1]}), max(n, 2)))
     for kind in SK_KINDS:
         strategies.append(("in_sender_key:" + kind,
                            S.shape_strategy(sender_key_shape(kind)).map(lambda t, _k=kind: {"sub": "in_sender_key", "kind": _k,
@@ -516,3 +526,4 @@ def plan(tier):
     }
 
 RULE += (" Also: every reply kind of the catalogue (15) as an incoming stanza after its request was sent from the top (in_reply), replies to the application's and the keep-alive's ping (in_ping_reply); every case is evaluated a second time with the logger layer at DEBUG.")
+RULE += (" ib and call stanzas also with a child of an unknown kind in front of the one that names the kind.")
